@@ -108,6 +108,93 @@ def aliasT (name : Str) (args : Args) : Str := name ++ aliasArgsT args
 /-- total response key -/
 def responseKeyT (name : Str) (args : Args) : Str := if args.isEmpty then name else aliasT name args
 
+/-! ### names, collapse, and the argument classes of the C12 theorems -/
+
+def isNameStart (c : Nat) : Bool := c == 95 || (65 ≤ c && c ≤ 90) || (97 ≤ c && c ≤ 122)
+
+/-- GraphQL `Name`: `[_A-Za-z][_0-9A-Za-z]*` -/
+def isGqlName : Str → Bool
+  | [] => false
+  | c :: rest => isNameStart c && rest.all isWordChar
+
+def isAlnum (c : Nat) : Bool := (48 ≤ c && c ≤ 57) || (65 ≤ c && c ≤ 90) || (97 ≤ c && c ≤ 122)
+
+/-- a non-empty string over `[A-Za-z0-9]` (no underscore) -/
+def isAtom (s : Str) : Bool := !s.isEmpty && s.all isAlnum
+
+/-- a string over `[A-Za-z0-9_]` -/
+def isWordStr (s : Str) : Bool := s.all isWordChar
+
+mutual
+/-- strings replaced by their collapse (what the alias function sees of them) -/
+def Value.collapse : Value → Value
+  | .str s => .str (collapseStr s)
+  | .obj fields => .obj (Value.collapseFields fields)
+  | v => v
+def Value.collapseFields : List (Str × Value) → List (Str × Value)
+  | [] => []
+  | (k, v) :: rest => (k, v.collapse) :: Value.collapseFields rest
+end
+
+def collapseArgs (args : Args) : Args := Value.collapseFields args
+
+mutual
+/-- `SafeArgs`: variables, integers in `[0, 2^53)`, booleans, enum values, null, objects thereof,
+strings over `[A-Za-z0-9_]`; every name a GraphQL name -/
+def Value.safe : Value → Bool
+  | .var n => isGqlName n
+  | .int i => decide (0 ≤ i) && decide (i < 9007199254740992)
+  | .bool _ => true
+  | .null => true
+  | .enum e => isGqlName e
+  | .str s => isWordStr s
+  | .float _ => false
+  | .list _ => false
+  | .obj fields => Value.safeFields fields
+def Value.safeFields : List (Str × Value) → Bool
+  | [] => true
+  | (k, v) :: rest => isGqlName k && v.safe && Value.safeFields rest
+end
+
+def safeArgs (args : Args) : Bool := Value.safeFields args
+
+mutual
+/-- values inside an object for the injectivity theorem: every atom non-empty alphanumeric,
+integers non-negative, no empty object -/
+def Value.tightInner : Value → Bool
+  | .var n => isAtom n
+  | .int i => decide (0 ≤ i)
+  | .bool _ => true
+  | .null => true
+  | .enum e => isAtom e
+  | .str s => isAtom s
+  | .float _ => false
+  | .list _ => false
+  | .obj fields => !fields.isEmpty && Value.tightFields fields
+def Value.tightFields : List (Str × Value) → Bool
+  | [] => true
+  | (k, v) :: rest => isAtom k && v.tightInner && Value.tightFields rest
+end
+
+/-- a top-level string argument: non-empty, over `[A-Za-z0-9_]`, no `_` at either end, no `__` -/
+def isTopStr : Str → Bool
+  | [] => false
+  | c :: rest =>
+    isAlnum c &&
+      (let rec go : Nat → Str → Bool
+        | _, [] => true
+        | prev, d :: more => (isAlnum d || (d == 95 && prev != 95 && !more.isEmpty)) && go d more
+      go c rest)
+
+/-- a top-level argument value for the injectivity theorem -/
+def Value.tightTop : Value → Bool
+  | .str s => isTopStr s
+  | v => v.tightInner
+
+def tightArgs : Args → Bool
+  | [] => true
+  | (k, v) :: rest => isAtom k && v.tightTop && tightArgs rest
+
 /-! ### JavaScript side -/
 
 /-- UTF-16 code units of a scalar value -/
